@@ -353,25 +353,72 @@ func NewRouterEnv(spec string) (*RouterEnv, error) {
 			Tag: fmt.Sprintf("up%d", i), Addr: fmt.Sprintf("%s://127.0.0.1:%d", scheme, fu.Port)})
 	}
 	if s := parts["S"]; s != "" {
-		for i, set := range strings.Split(s, ",") {
-			var sb strings.Builder
-			sb.WriteString("# generated\n\n")
+		// An entry that occurs in more than one set is written ONCE, into a file of its own that every such set lists next
+		// to its own file (domain sets may share files; the result depends only on the set of entries). Each set's own
+		// entries are additionally split over two files.
+		sets := strings.Split(s, ",")
+		occ := map[string]int{}
+		for _, set := range sets {
+			seen := map[string]bool{}
 			if set != "-" {
 				for _, ent := range strings.Split(set, "+") {
-					kind, hexname, _ := strings.Cut(ent, ".")
-					raw, err := UnHex(hexname)
+					if !seen[ent] {
+						seen[ent] = true
+						occ[ent]++
+					}
+				}
+			}
+		}
+		line := func(ent string) (string, error) {
+			kind, hexname, _ := strings.Cut(ent, ".")
+			raw, err := UnHex(hexname)
+			if err != nil {
+				return "", err
+			}
+			pre := map[string]string{"f": "full:", "d": "domain:", "b": ""}[kind]
+			return pre + ReadableName(raw) + "\n", nil
+		}
+		sharedFile := map[string]string{}
+		for i, set := range sets {
+			var own [2]strings.Builder
+			own[0].WriteString("# generated\n\n")
+			own[1].WriteString("# generated (second file)\n")
+			var files []string
+			if set != "-" {
+				for j, ent := range strings.Split(set, "+") {
+					l, err := line(ent)
 					if err != nil {
 						return nil, err
 					}
-					pre := map[string]string{"f": "full:", "d": "domain:", "b": ""}[kind]
-					sb.WriteString(pre + ReadableName(raw) + "\n")
+					if occ[ent] > 1 {
+						fp, ok := sharedFile[ent]
+						if !ok {
+							fp = filepath.Join(dir, fmt.Sprintf("shared%d.txt", len(sharedFile)))
+							if err := os.WriteFile(fp, []byte("# shared by several sets\n"+l), 0644); err != nil {
+								return nil, err
+							}
+							sharedFile[ent] = fp
+						}
+						dup := false
+						for _, f := range files {
+							dup = dup || f == fp
+						}
+						if !dup {
+							files = append(files, fp)
+						}
+						continue
+					}
+					own[j%2].WriteString(l)
 				}
 			}
-			fp := filepath.Join(dir, fmt.Sprintf("set%d.txt", i))
-			if err := os.WriteFile(fp, []byte(sb.String()), 0644); err != nil {
-				return nil, err
+			for k := 0; k < 2; k++ {
+				fp := filepath.Join(dir, fmt.Sprintf("set%d_%d.txt", i, k))
+				if err := os.WriteFile(fp, []byte(own[k].String()), 0644); err != nil {
+					return nil, err
+				}
+				files = append(files, fp)
 			}
-			cfg.DomainSets = append(cfg.DomainSets, router.DomainSetConfig{Tag: fmt.Sprintf("set%d", i), Files: []string{fp}})
+			cfg.DomainSets = append(cfg.DomainSets, router.DomainSetConfig{Tag: fmt.Sprintf("set%d", i), Files: files})
 		}
 	}
 	if s := parts["R"]; s != "" {
